@@ -14,6 +14,6 @@ def run(m):
         r=subprocess.run([gvc,"check",md["property"],"--repo",cp,"--no-evidence"],capture_output=True,text=True)
         return (name,{0:"PASS",1:"VIOLATION",2:"TOOL-ERROR"}.get(r.returncode,str(r.returncode)))
     finally: shutil.rmtree(tmp,ignore_errors=True)
-with ThreadPoolExecutor(max_workers=5) as ex:
+with ThreadPoolExecutor(max_workers=int(os.environ.get("SWEEP_J","5"))) as ex:
     for n,v in ex.map(run,sorted(glob.glob("/verif/seeded/*/meta.json"))):
         print(n,v,flush=True)
